@@ -759,4 +759,98 @@ Proof.
   eexists _, _. split; [reflexivity|]. split; [left; reflexivity|].
   eapply ip_finish; [apply ext_refl | exact W | exact Ey | exact Hl].
 Qed.
+
+(* ================= expression classes with a FIELD range (functionals) ================= *)
+Definition inst_f (dom : space) (pars : list VR) (vecs : list nat) (owns : list (option nat)) (kids : list opsemR) : instR :=
+  {| i_dom := dom; i_ran := RField; i_pars := pars; i_vecs := vecs; i_owns := owns; i_kids := kids |}.
+
+Lemma fsum_sc (Kl Kr : opsemR) dom ro fl fr :
+  o_dom Kl = dom -> o_dom Kr = dom -> sc_ok Kl ro fl -> sc_ok Kr ro fr ->
+  raw_oop_sc (fun x => exec_body junk (inst_f dom [] [] [None; None] [Kl; Kr]) (c_oop cls_OperatorSum) x None)
+    dom ro (fun d => (fl d + fr d)%R).
+Proof.
+  intros Hdl Hdr (_ & Hl) (_ & Hr) s x dx W G Ex.
+  unfold cls_OperatorSum, inst_f. interp.
+  assert (Exl : rd s x = Some (o_dom Kl, cl dx)) by (rewrite Hdl; exact Ex).
+  destruct (Hl s x dx W G Exl) as (s1 & Hc1 & E1 & W1). rewrite Hc1.
+  destruct (keep_nil _ _ _ _ _ E1 G Ex) as (G1 & Ex1). rewrite <- Hdr in Ex1.
+  destruct (Hr s1 x dx W1 G1 Ex1) as (s2 & Hc2 & E2 & W2). rewrite Hc2.
+  exists s2. splits; [reflexivity | eapply ext_trans_same; eassumption | exact W2].
+Qed.
+Lemma fpprod_sc (Kl Kr : opsemR) dom ro fl fr :
+  o_dom Kl = dom -> o_dom Kr = dom -> sc_ok Kl ro fl -> sc_ok Kr ro fr ->
+  raw_oop_sc (fun x => exec_body junk (inst_f dom [] [] [] [Kl; Kr]) (c_oop cls_OperatorPointwiseProduct) x None)
+    dom ro (fun d => (fl d * fr d)%R).
+Proof.
+  intros Hdl Hdr (_ & Hl) (_ & Hr) s x dx W G Ex.
+  unfold cls_OperatorPointwiseProduct, inst_f. interp.
+  assert (Exl : rd s x = Some (o_dom Kl, cl dx)) by (rewrite Hdl; exact Ex).
+  destruct (Hl s x dx W G Exl) as (s1 & Hc1 & E1 & W1). rewrite Hc1.
+  destruct (keep_nil _ _ _ _ _ E1 G Ex) as (G1 & Ex1). rewrite <- Hdr in Ex1.
+  destruct (Hr s1 x dx W1 G1 Ex1) as (s2 & Hc2 & E2 & W2). rewrite Hc2.
+  exists s2. splits; [reflexivity | eapply ext_trans_same; eassumption | exact W2].
+Qed.
+Lemma flscal_sc (K : opsemR) dom ro f a :
+  o_dom K = dom -> sc_ok K ro f ->
+  raw_oop_sc (fun x => exec_body junk (inst_f dom [Some a] [] [] [K]) (c_oop cls_OperatorLeftScalarMult) x None)
+    dom ro (fun d => (a * f d)%R).
+Proof.
+  intros Hd (_ & Hf) s x dx W G Ex.
+  unfold cls_OperatorLeftScalarMult, inst_f. interp.
+  rewrite <- Hd in Ex.
+  destruct (Hf s x dx W G Ex) as (s1 & Hc1 & E1 & W1). rewrite Hc1.
+  exists s1. splits; [reflexivity | exact E1 | exact W1].
+Qed.
+Lemma fcomp_sc (Kl Kr : opsemR) dom mid ro f Fr :
+  o_dom Kl = mid -> o_dom Kr = dom -> sc_ok Kl ro f -> vec_ok Kr mid ro Fr ->
+  raw_oop_sc (fun x => exec_body junk (inst_f dom [] [] [None] [Kl; Kr]) (c_oop cls_OperatorComp) x None)
+    dom ro (fun d => f (Fr d)).
+Proof.
+  intros Hdl Hdr (_ & Hf) (_ & Hor & _) s x dx W G Ex.
+  unfold cls_OperatorComp, inst_f. interp.
+  rewrite <- Hdr in Ex.
+  destruct (Hor s x dx W G Ex) as (r1 & s1 & Hc1 & Er1 & E1 & W1 & Hr1). rewrite Hc1.
+  destruct (keep_nil _ _ _ _ _ E1 G Ex) as (G1 & _).
+  rewrite <- Hdl in Er1.
+  destruct (Hf s1 r1 (Fr dx) W1 G1 Er1) as (s2 & Hc2 & E2 & W2). rewrite Hc2.
+  exists s2. splits; [reflexivity | eapply ext_trans_same; eassumption | exact W2].
+Qed.
+Lemma frscal_sc (K : opsemR) dom ro f a :
+  o_dom K = dom -> sc_ok K ro f ->
+  raw_oop_sc (fun x => exec_body junk (inst_f dom [Some a] [] [None] [K]) (c_oop cls_OperatorRightScalarMult) x None)
+    dom ro (fun d => f (rscal a d)).
+Proof.
+  intros Hd (_ & Hf) s x dx W G Ex.
+  unfold cls_OperatorRightScalarMult, inst_f. interp.
+  rewrite (new_scaled_clean _ _ _ _ _ W Ex).
+  set (t := length s). set (s1 := s ++ [(dom, cl (rscal a dx))]).
+  assert (W1 : wf_store s1).
+  { apply wf_alloc; [exact W | rewrite cl_length, rscal_length; eapply wf_len; eauto]. }
+  assert (E01 : ext s s1 []) by apply ext_alloc.
+  destruct (keep_nil _ _ _ _ _ E01 G Ex) as (G1 & _).
+  assert (Et1 : rd s1 t = Some (o_dom K, cl (rscal a dx))) by (rewrite Hd; apply rd_app_new).
+  destruct (Hf s1 t _ W1 G1 Et1) as (s2 & Hc & E2 & W2).
+  rw_call Hc.
+  exists s2. splits; [reflexivity | eapply ext_trans_same; eassumption | exact W2].
+Qed.
+Lemma frvec_sc (K : opsemR) dom ro f v dv :
+  o_dom K = dom -> sc_ok K ro f -> In (v, dom, dv) ro ->
+  raw_oop_sc (fun x => exec_body junk (inst_f dom [] [v] [] [K]) (c_oop cls_OperatorRightVectorMult) x None)
+    dom ro (fun d => f (rmul d dv)).
+Proof.
+  intros Hd (_ & Hf) Iv s x dx W G Ex.
+  unfold cls_OperatorRightVectorMult, inst_f. interp.
+  pose proof (G _ _ _ Iv) as Ev.
+  rewrite (new_mul_clean _ _ _ _ _ _ Ex Ev). rewrite rmul_comm.
+  set (t := length s). set (s1 := s ++ [(dom, cl (rmul dx dv))]).
+  assert (W1 : wf_store s1).
+  { apply wf_alloc; [exact W | rewrite cl_length, rmul_length; [eapply wf_len; eauto|]].
+    rewrite (wf_len _ _ _ _ W Ex), (wf_len _ _ _ _ W Ev). reflexivity. }
+  assert (E01 : ext s s1 []) by apply ext_alloc.
+  destruct (keep_nil _ _ _ _ _ E01 G Ex) as (G1 & _).
+  assert (Et1 : rd s1 t = Some (o_dom K, cl (rmul dx dv))) by (rewrite Hd; apply rd_app_new).
+  destruct (Hf s1 t _ W1 G1 Et1) as (s2 & Hc & E2 & W2).
+  rw_call Hc.
+  exists s2. splits; [reflexivity | eapply ext_trans_same; eassumption | exact W2].
+Qed.
 End Classes.
